@@ -944,6 +944,14 @@ fn process_write_batch(
             .extend(delete_operations.drain(..));
     }
 
+    // The device guard is taken before the extents are allocated and held until
+    // they are durable. Free runs are handed out from their start, and the
+    // retirement markers still lying in a free run each claim everything up to
+    // its end: if a batch that allocated the rear part of such a run became
+    // durable while the batch holding the front part had not reached the device
+    // yet, the stale markers in front would claim the new records and recovery
+    // would retire them.
+    let mut disk_guard = (!prepared_writes.is_empty()).then(|| disk_io.write());
     if !prepared_writes.is_empty() {
         let mut free_space_guard = free_space.write();
         for index in 0..prepared_writes.len() {
@@ -983,7 +991,9 @@ fn process_write_batch(
     #[cfg(feature = "verif")]
     crate::verif::sched("flush.allocated", batch_writes.len() as u64, 0);
     if !batch_writes.is_empty() {
-        let mut disk_guard = disk_io.write();
+        let mut disk_guard = disk_guard
+            .take()
+            .expect("device guard taken before allocation");
         for write in &prepared_writes {
             mark_reservation_dirty(&write.entry);
         }
